@@ -286,8 +286,12 @@ class Program:
             tree = ast.parse(text, filename=str(p))
             if not os.environ.get("SA_NO_NORMALISE"):
                 try:
-                    from .normalize import import_private_helpers, import_private_methods
-                    shared = import_private_helpers(tree, raw, PKG)
+                    from .normalize import import_private_helpers, import_private_methods, copy_inherited_private_methods
+                    from . import normalize as _nz
+                    _nz.FOREIGN_PRIVATE_PROPS.clear()
+                    _nz.FOREIGN_PRIVATE_PROPS.update(_nz.collect_package_private_props(raw))
+                    shared = copy_inherited_private_methods(tree, raw, PKG)
+                    shared += import_private_helpers(tree, raw, PKG)
                     shared += import_private_methods(tree, raw, PKG, p.stem)
                     self.normalised[p.stem] = normalise_module(tree)
                     # constant fields of module-level helper objects that inlining has brought into the codec methods (`LABEL.size`)
@@ -562,6 +566,11 @@ class Program:
                     mv = self.enum_members(k).get(node.value.attr)
                     if isinstance(mv, int) and not isinstance(mv, bool):
                         return mv
+                if k is not None and not self.is_enum(k):
+                    # Cls.CONST.value where the class constant is itself an enum member (`UnusedBlock.type.value`)
+                    ca = self.class_attr(k, node.value.attr)
+                    if ca and isinstance(ca[1], ast.Attribute):
+                        return self.const_int(ca[0].module, ast.Attribute(value=ca[1], attr="value", ctx=ast.Load()), ca[0], None)
             # Cls.CONST / self.CONST
             if isinstance(node.value, ast.Name):
                 k = None
